@@ -155,3 +155,22 @@ Definition env_op (incl excl : string -> bool) (path : string) (env : list (stri
                if incl (fst e) && negb (excl (fst e))
                then add_value_at (to_path path ("Env." ++ fst e)%string) (Leaf (SStr (snd e))) acc
                else acc) env data.
+
+(* ---------- templateFile: the template text is read from a file (None: the file cannot be read), rendered against the whole
+   data document or the container at [path], and written to the output file; the data document is only read *)
+Inductive tf_result := TFErr | TFWritten (content : string).
+
+Definition template_file_scope (path : option string) (data : list (string * node)) : option (list (string * node)) :=
+  match path with
+  | None => Some data
+  | Some p => match lookup p (Con data) with Some (Con kvs) => Some kvs | _ => None end
+  end.
+
+Definition template_file_op (t : option tmpl) (file output : string) (path : option string)
+  (data : list (string * node)) : tf_result :=
+  if String.eqb file "" then TFErr
+  else if String.eqb output "" then TFErr
+  else match template_file_scope path data, t with
+       | Some d, Some t => TFWritten (render t d)
+       | _, _ => TFErr
+       end.
